@@ -55,6 +55,17 @@ TARGETS = {
     "nc_tuple": ("(NC, NC)", "(NC(\"a\".to_string()), NC(\"b\".to_string()))", [
         ("tuple_nc", "(NC(\"a\"), NC(\"b\"))", "(NC(\"a\"), NC(\"c\"))"), ("tuple_nc_wild", "(_, NC(\"b\"))", None)]),
     "box": ("Box<i32>", "Box::new(7)", [("boxed_via_clone", None, None)]),
+    # further leaf and collection types (literal forms, signs, suffixes; string slices; arrays and hash collections)
+    "char": ("char", "'q'", [("char_lit", "'q'", "'z'"), ("char_range", "'a'..='z'", "'A'..='Z'"), ("char_ne", "!= 'z'", "!= 'q'")]),
+    "f64": ("f64", "1.5", [("float_lit", "1.5", "2.5"), ("float_gt", "> 1.0", "> 2.0"), ("float_range", "1.0..2.0", "2.0..3.0")]),
+    "str_ref": ("&'static str", "\"hello\"", [("str_lit", "\"hello\"", "\"jello\""), ("str_eq", "== \"hello\"", "== \"x\""),
+                                            ("str_regex", "=~ r\"^he\"", "=~ r\"^je\""), ("str_like", "=~ pat", "=~ nopat")]),
+    "u64": ("u64", "7", [("u_suffix", "7u64", "8u64"), ("u_hex", "0x7", "0x8"), ("u_range", "..=7", "..7")]),
+    "neg": ("i64", "-3", [("neg_lit", "-3", "-4"), ("neg_cmp", "< -2", "< -3"), ("neg_range", "-5..=-3", "-5..-3")]),
+    "array": ("[i32; 3]", "[1, 2, 3]", [("arr_slice", "[1, 2, 3]", "[1, 2]"), ("arr_rest", "[1, ..]", "[2, ..]"), ("arr_set", "#(3, 2, 1)", "#(1, 2)")]),
+    "hashset": ("HashSet<i32>", "HashSet::from([1, 2, 3])", [("hs_set", "#(3, 1, 2)", "#(1, 2)"), ("hs_rest", "#(2, ..)", "#(4, ..)")]),
+    "hashmap": ("HashMap<String, i32>", "HashMap::from([(\"a\".to_string(), 1)])", [("hm_map", "#{ \"a\": 1 }", "#{ \"a\": 2 }"), ("hm_rest", "#{ \"a\": > 0, .. }", "#{ \"b\": 1, .. }")]),
+    "opt_string": ("Option<String>", "Some(\"hello\".to_string())", [("some_str", "Some(\"hello\")", "Some(\"jello\")"), ("some_regex", "Some(=~ r\"^he\")", "Some(=~ r\"^je\")")]),
 }
 
 # positions: name -> (extra declarations, setup statements, root expression, pattern wrapper)
@@ -69,7 +80,7 @@ POSITIONS = {
     "root_call": ("fn mk() -> {T} {{ {V} }}", "", "mk()", "{P}"),
     # computed asserted expressions whose value is a REFERENCE (the pattern must see it as it sees a reference variable):
     # a function call, a method call, an Option unwrapped by reference, a block
-    "root_call_ref": ("fn pick(x: &{T}) -> &{T} {{ x }}", "let x: {T} = {V};", "pick(&x)", "{P}"),
+    "root_call_ref": ("fn pick<'a>(x: &'a {T}) -> &'a {T} {{ x }}", "let x: {T} = {V};", "pick(&x)", "{P}"),
     "root_method_ref": ("#[derive(Debug, Clone)] struct W {{ f: {T}, g: i32 }} impl W {{ fn get_ref(&self) -> &{T} {{ &self.f }} }}",
                         "let w = W {{ f: {V}, g: 1 }};", "w.get_ref()", "{P}"),
     "root_unwrap_ref": ("", "let o: Option<{T}> = Some({V});", "o.as_ref().unwrap()", "{P}"),
